@@ -312,6 +312,11 @@ func (e *Engine) initOnlyBackground(root string) bool {
 
 func (st *State) loadPtr(p *Ptr, pos token.Pos) Val {
 	e := st.e
+	if p.Kind == PObj && p.Path == "" && isConcreteNum(p.Root) && e.globalName[p.Root] == "net/http.DefaultTransport" {
+		// a non-nil RoundTripper set up by net/http
+		e.assumeUsed("net/http.DefaultTransport is a non-nil RoundTripper")
+		return Val{T: p.T, C: []string{e.tagByName("*http.Transport", nil), "999"}}
+	}
 	if p.Kind == PObj && p.Path == "" && isConcreteNum(p.Root) && e.globalName[p.Root] == "io.EOF" {
 		v := st.ioEOF()
 		v.T = p.T
